@@ -81,6 +81,8 @@ type Program struct {
 	rtErrType     types.Type
 	errStringType types.Type
 	rtypePtr      types.Type
+	// DroppedOverlays: harness files that did not type-check against the current tree (real path -> first error)
+	DroppedOverlays map[string]string
 	mu            sync.Mutex
 	RepoDir       string
 	VerifDir      string
@@ -182,25 +184,58 @@ func Load(repo, verif, suiteFile string) (*Program, error) {
 		Env: append(os.Environ(), "GOFLAGS=-mod=mod -modfile="+modfile, "GOPROXY=off", "GOSUMDB=off",
 			"GOTOOLCHAIN=local", "GOWORK=off"),
 	}
-	pkgs, err := packages.Load(cfg, suite.Packages...)
-	if err != nil {
-		return nil, err
-	}
-	var errs []string
-	packages.Visit(pkgs, nil, func(p *packages.Package) {
-		for _, e := range p.Errors {
-			errs = append(errs, e.Error())
+	// Load; when a harness overlay file does not type-check against the current tree (the code
+	// under test lost or renamed something a white-box harness refers to), drop that file and
+	// load again: the harnesses it defines become inconclusive, the others still run.
+	var pkgs []*packages.Package
+	dropped := map[string]string{}
+	for attempt := 0; ; attempt++ {
+		pkgs, err = packages.Load(cfg, suite.Packages...)
+		if err != nil {
+			return nil, err
 		}
-	})
-	if len(errs) > 0 {
-		if len(errs) > 20 {
-			errs = errs[:20]
+		var errs []string
+		bad := map[string]bool{}
+		foreign := false
+		packages.Visit(pkgs, nil, func(p *packages.Package) {
+			for _, e := range p.Errors {
+				errs = append(errs, e.Error())
+				file := e.Pos
+				if i := strings.Index(file, ":"); i >= 0 {
+					file = file[:i]
+				}
+				if _, isOverlay := files[file]; isOverlay {
+					bad[file] = true
+				} else {
+					foreign = true
+				}
+			}
+		})
+		if len(errs) == 0 {
+			break
 		}
-		return nil, fmt.Errorf("package load errors:\n%s", strings.Join(errs, "\n"))
+		if foreign || len(bad) == 0 || attempt >= 4 {
+			if len(errs) > 20 {
+				errs = errs[:20]
+			}
+			return nil, fmt.Errorf("package load errors:\n%s", strings.Join(errs, "\n"))
+		}
+		for f := range bad {
+			first := ""
+			for _, e := range errs {
+				if strings.HasPrefix(e, f+":") {
+					first = e
+					break
+				}
+			}
+			dropped[files[f]] = first
+			delete(overlay, f)
+			delete(files, f)
+		}
 	}
 	prog, _ := ssautil.AllPackages(pkgs, ssa.InstantiateGenerics)
 	P := &Program{Prog: prog, Pkgs: map[string]*ssa.Package{}, Suite: suite, Repl: map[string]*ssa.Function{},
-		initPkgSet: map[*ssa.Package]bool{}, RepoDir: repo, VerifDir: verif, Files: files}
+		initPkgSet: map[*ssa.Package]bool{}, RepoDir: repo, VerifDir: verif, Files: files, DroppedOverlays: dropped}
 	for _, p := range prog.AllPackages() {
 		P.Pkgs[p.Pkg.Path()] = p
 	}
